@@ -142,13 +142,16 @@ type c10Seg struct {
 	num   int
 }
 
-func c10GenDay(r *core.Rand) *C10Script {
+func c10GenDay(r *core.Rand, big bool) *C10Script {
 	s := &C10Script{Workload: "broadcast_day"}
 	var t int64
 	var stack []c10Seg
 	ev := uint32(100)
 	newEv := func() uint32 { ev++; return ev }
 	n := r.Pick(6, 10, 20, 40, 80, 150)
+	if big {
+		n = r.Pick(300, 600)
+	}
 	inBreakaway := false
 	emit := func(ds ...C10Desc) {
 		s.Signals = append(s.Signals, C10Signal{T: t, Descs: ds})
@@ -343,7 +346,7 @@ func prog0(stack []c10Seg) int {
 func (c10) Gen(r *core.Rand, tier string) interface{} {
 	var s *C10Script
 	if r.Chance(2, 5) {
-		s = c10GenDay(r)
+		s = c10GenDay(r, tier == "thorough" && r.Chance(1, 10))
 	} else {
 		s = c10GenAdversarial(r)
 	}
